@@ -50,6 +50,7 @@ structure OG (E : Env U π) (rank : UNT U → Nat) (s : St U π) (emE : List (π
   em_key : ∀ x, x ∈ emE → ∃ w pr, startW E x.2.2 = some w ∧ HasPrio E x.2.1 x.2.2 pr ∧ x.1 = E.ops.adjust pr w
   /-- the rejected programs were handed over by the start heap -/
   del_em : ∀ q, q ∈ s.deleted → q ∈ emE.map (·.2.1)
+  del_nodup : s.deleted.Nodup
 
 /-- `__push_next_from_start__(start, program)`: the state part -/
 theorem OG.pushNext (R : RHyp E rank Good) {fuel : Nat} {s s' : St U π} {emE : List (π × Prog × UNT U)}
@@ -96,7 +97,8 @@ theorem OG.pushNext (R : RHyp E rank Good) {fuel : Nat} {s s' : St U π} {emE : 
     have hfr1' : Frame rank (rank nt) (some nt) s s1 := hfr1
     have hsh := big_startHeap E hk hb
     have hdl := big_deleted E hb hk
-    refine ⟨⟨hbase1, g', ?_, ?_, h.sorted, hsh ▸ h.sheap, h.em_key, by rw [hdl]; exact h.del_em⟩, fun e he => Or.inl (hsh ▸ he),
+    refine ⟨⟨hbase1, g', ?_, ?_, h.sorted, hsh ▸ h.sheap, h.em_key, by rw [hdl]; exact h.del_em, by rw [hdl]; exact h.del_nodup⟩,
+      fun e he => Or.inl (hsh ▸ he),
       fun sj => hkept1 sj (by simp [Call.inner]), fun e he => by rw [hsh]; exact he,
       Or.inr ⟨by simpa using query_initS E hk hb, (a5 rfl).1, (a5 rfl).2⟩, hdl⟩
     · intro nt'
@@ -154,7 +156,8 @@ theorem OG.pushNext (R : RHyp E rank Good) {fuel : Nat} {s s' : St U π} {emE : 
         have e1 : s2.deleted = s1.deleted := by obtain ⟨c, hc'⟩ := hcs; rw [hc']
         rw [e1]
         exact big_deleted E hb hk
-      refine ⟨⟨hbase2, g', hall1.same hsame2 hst2, ?_, h.sorted, ?_, h.em_key, by rw [hdl2]; exact h.del_em⟩, ?_, hkept2, ?_, ?_, hdl2⟩
+      refine ⟨⟨hbase2, g', hall1.same hsame2 hst2, ?_, h.sorted, ?_, h.em_key, by rw [hdl2]; exact h.del_em,
+        by rw [hdl2]; exact h.del_nodup⟩, ?_, hkept2, ?_, ?_, hdl2⟩
       · intro e he x hx
         rcases hmem e he with rfl | hm
         · rcases hnewG with hn | ⟨hgb, hn⟩
@@ -266,7 +269,7 @@ theorem OG.popStart (R : RHyp E rank Good) {s : St U π} {emE : List (π × Prog
     apply this.1
     obtain ⟨x, hx, hxe⟩ := List.mem_map.mp hq
     exact List.mem_map.mpr ⟨x, hx, hxe⟩
-  refine ⟨⟨⟨g0.sinv, g0.ninv, h.base.hinv, h.base.delF⟩, g0, ?_, ?_, ?_, hsh', ?_, ?_⟩, hnt0, hpq, hm,
+  refine ⟨⟨⟨g0.sinv, g0.ninv, h.base.hinv, h.base.delF⟩, g0, ?_, ?_, ?_, hsh', ?_, ?_, h.del_nodup⟩, hnt0, hpq, hm,
     fun hd => hqnew (h.del_em q hd)⟩
   · exact h.all.same (fun _ => ⟨rfl, rfl, rfl, rfl, rfl, fun _ => rfl, fun _ _ => rfl⟩) (Stable.refl _)
   · intro e' he' x hx
@@ -339,7 +342,7 @@ theorem og_empty (E : Env U π) : OG E rank (St.empty E.G) [] := by
       · rfl
       · exact ih
   refine ⟨⟨g.sinv, g.ninv, (hinv_empty E).1, by intro q hq; cases hq⟩, g, ?_, (by intro e he; cases he), List.Pairwise.nil,
-    (hinv_empty E).2, (by intro x hx; cases hx), (by intro q hq; cases hq)⟩
+    (hinv_empty E).2, (by intro x hx; cases hx), (by intro q hq; cases hq), List.nodup_nil⟩
   intro nt
   exact Or.inl ⟨rfl, hnil _ nt, hnil _ nt, hnil _ nt⟩
 
@@ -372,7 +375,7 @@ theorem OG.addDeleted (R : RHyp E rank Good) {s : St U π} {emE : List (π × Pr
   · exact h
   · rename_i hc
     simp only [hc, Bool.false_eq_true, if_false] at hg
-    refine ⟨⟨hg.sinv, hg.ninv, h.base.hinv, ?_⟩, hg, ?_, h.heap_ge, h.sorted, h.sheap, h.em_key, ?_⟩
+    refine ⟨⟨hg.sinv, hg.ninv, h.base.hinv, ?_⟩, hg, ?_, h.heap_ge, h.sorted, h.sheap, h.em_key, ?_, ?_⟩
     · intro q hq
       rcases List.mem_append.mp hq with h1 | h1
       · exact h.base.delF q h1
@@ -382,6 +385,15 @@ theorem OG.addDeleted (R : RHyp E rank Good) {s : St U π} {emE : List (π × Pr
       rcases List.mem_append.mp hq with h1 | h1
       · exact h.del_em q h1
       · simp only [List.mem_singleton] at h1; subst h1; simp
+    · rw [List.nodup_append]
+      refine ⟨h.del_nodup, by simp, ?_⟩
+      intro a ha b hb
+      simp only [List.mem_singleton] at hb
+      subst hb
+      intro hab
+      subst hab
+      apply hc
+      simp [ha]
 
 /-- the entries are all rejected by the filter -/
 def RejAll (E : Env U π) (l : List (π × Prog × UNT U)) : Prop := ∀ x, x ∈ l → E.filter x.2.1 = false
